@@ -91,7 +91,7 @@ func run(c *lib.Ctx) error {
 	var layouts []lib.GenAsset
 	for _, l := range lib.GenCatalogue() {
 		switch l.Asset.Name {
-		case "g_avgfirst_tl", "g_irr7_12800", "g_alt48_tl", "g_60000_frag_tl", "g_mixed_n", "g_mixed_n2":
+		case "g_avgfirst_tl", "g_irr7_12800", "g_alt48_tl", "g_60000_frag_tl", "g_mixed_n", "g_mixed_n2", "g_10mhz_tl":
 			layouts = append(layouts, l.Asset)
 		}
 	}
@@ -190,7 +190,8 @@ func run(c *lib.Ctx) error {
 			if k > 3 && s.stopS == 0 && rng.Intn(5) == 0 && 120000%segMS == 0 && a.LoopMS%N == 0 {
 				s.cfg.Extra = "periods_30/" // 120 s periods: a multiple of the segment duration
 			}
-			base := []int64{0, N - 2, 2*N - 2, 40 + rng.Int63n(3*N), 2000000 + rng.Int63n(1000)}[rng.Intn(5)]
+			// stream start, around the first wraps, weeks in, and the years 2030 / 2040 (64-bit products)
+			base := []int64{0, N - 2, 2*N - 2, 40 + rng.Int63n(3*N), 2000000 + rng.Int63n(1000), (1900000000000-cfg.StartS*1000)/segMS + rng.Int63n(1000), (2200000000000-cfg.StartS*1000)/segMS + rng.Int63n(1000)}[(k+rng.Intn(7))%7]
 			if base < 0 {
 				base = 0
 			}
